@@ -195,11 +195,20 @@ impl Req {
 #[derive(Clone, Debug, PartialEq)]
 pub struct History {
     pub reqs: Vec<Req>,
+    /// The client starts with a session cookie that this history did not issue: made by the client itself (nothing
+    /// stops it when the processor has no rule for the cookie) or issued by an earlier deployment that only signed.
+    /// The pair is the client-side state it carries; the id is fresh and has no server record.
+    pub forged: Option<Vec<(String, String)>>,
 }
 
 impl History {
     pub fn show(&self) -> String {
-        self.reqs
+        let pre = match &self.forged {
+            Some(kv) => format!("FORGED-COOKIE{kv:?} | "),
+            None => String::new(),
+        };
+        pre + &self
+            .reqs
             .iter()
             .enumerate()
             .map(|(i, r)| format!("R{}{}", i + 1, r.show()))
@@ -207,10 +216,18 @@ impl History {
             .join(" | ")
     }
     pub fn to_json(&self) -> Value {
-        Value::Array(self.reqs.iter().map(|r| r.to_json()).collect())
+        let reqs = Value::Array(self.reqs.iter().map(|r| r.to_json()).collect());
+        match &self.forged {
+            None => reqs,
+            Some(kv) => serde_json::json!({"reqs": reqs, "forged": kv}),
+        }
     }
     pub fn from_json(v: &Value) -> Option<History> {
-        Some(History { reqs: v.as_array()?.iter().filter_map(Req::from_json).collect() })
+        if let Some(o) = v.as_object() {
+            let forged = o.get("forged").and_then(|f| serde_json::from_value::<Vec<(String, String)>>(f.clone()).ok());
+            return Some(History { reqs: o.get("reqs")?.as_array()?.iter().filter_map(Req::from_json).collect(), forged });
+        }
+        Some(History { reqs: v.as_array()?.iter().filter_map(Req::from_json).collect(), forged: None })
     }
     pub fn n_ops(&self) -> usize {
         self.reqs.iter().map(|r| r.ops.len()).sum()
@@ -368,5 +385,15 @@ pub fn gen_history(rng: &mut Rng, max_reqs: u64, client_ops: bool, faults: bool)
     }
     // ... and always finish by reading everything back with whatever the browser holds.
     reqs.push(Req { src: Src::Jar, long_ttl: rng.chance(1, 2), extra_cookie: false, ops: probe_ops(rng) });
-    History { reqs }
+    // one history in nine starts with a cookie it did not issue (drawn last, so that the other histories are what they were)
+    let forged = if rng.chance(1, 9) {
+        Some(match rng.below(3) {
+            0 => vec![],
+            1 => vec![(CKEYS[rng.below(3) as usize].to_string(), "forged-1".to_string())],
+            _ => vec![(CKEYS[0].to_string(), "forged-a".to_string()), (CKEYS[2].to_string(), "forged-y".to_string())],
+        })
+    } else {
+        None
+    };
+    History { reqs, forged }
 }
